@@ -122,7 +122,8 @@ def check_module(ctx, idx, seed):
     finally:
         gm.OUTCOMES.clear()
         gm.OUTCOMES.update(saved)
-    options = rng.choice(OPTIONS)
+    rng.choice(OPTIONS)        # (keeps the generator's stream as it was)
+    options = OPTIONS[idx % len(OPTIONS)]       # round robin: every option set is met equally often
     work = os.path.join(ctx.tmp, 'w_%d_%d' % (ctx.shard, idx))
     os.mkdir(work)
     modname = 'pm_%d_%d_%d_zz' % (ctx.seed, ctx.shard, idx)
